@@ -173,6 +173,10 @@ func genC18(t *rapid.T, tier string) (*World, any) {
 		// roots whose path merely contains the text "regex-assembly"
 		putRoot(w, "crs/regex-assembly-plugins/inner", "innerplug")
 		putRoot(w, "crs/regex-assembly/vendored", "vendored")
+		if (p.Cmd == "generate" || p.Cmd == "format") && chance(t, 30, "nested-without-rules") {
+			// regex-assembly makes a root; a rules directory is not required for commands that do not need one
+			delete(w.Files, "crs/util/a/nested/rules/REQUEST-942-APPLICATION-ATTACK-SQLI.conf")
+		}
 		w.Dirs = append(w.Dirs, "empty/x/y", "crs/util/a/nested/deep/er")
 		if chance(t, 50, "checkouts") {
 			// other checkouts inside the tree (a plugin repository, a submodule, the root's own .git): the rule looks for regex-assembly only
@@ -270,6 +274,9 @@ func evalC18(sc *Scenario, sim *Sim) ([]Violation, bool, string) {
 			d := p.Dir
 			if p.DirAbs {
 				d = filepath.Clean(filepath.Join(sb.W, p.Cwd, p.Dir))
+				if strings.HasSuffix(p.Dir, "/") {
+					d += "/" // as the user (or shell completion) wrote it
+				}
 			}
 			a = append(a, "-d", d)
 		}
